@@ -497,6 +497,13 @@ class RegWorker(_REAL_WORKER):  # type: ignore[misc,valid-type]
         WORLD.worker_by_id[id] = self
         super().__init__(id, conn)
 
+    def _process_task_completion(self, task: Any, result: Any) -> None:
+        from vf import trees
+        reported = task.return_address in self._tasks
+        trees.LOG.append(('completed', tuple(task.return_address), self._id,
+                          reported))
+        super()._process_task_completion(task, result)
+
     def _handle_cancel(self, addr: Any) -> None:
         super()._handle_cancel(addr)
         from vf import trees
